@@ -515,4 +515,4 @@ def dump_devices(arm, template):
 def snapshot_core_spec(arm, spec, arch_only=False):
     """a core spec that rebuilds exactly the current architectural state and memory of 'arm'"""
     return {'config': spec.get('config'), 'devices': dump_devices(arm, spec.get('devices', [])), 'regs': dump_state(arm, arch_only),
-            'reset': False, 'done_pc': spec.get('done_pc'), 'custom_fetch': spec.get('custom_fetch')}
+            'reset': False, 'done_pc': spec.get('done_pc'), 'custom_fetch': spec.get('custom_fetch'), 'bystander': spec.get('bystander')}
